@@ -39,6 +39,8 @@ def tag_shapes(rng, quick):
         'soft1': lambda: opt('steps.a.outputs.success', False),
         'oneof': lambda: oneof('kind', {'ok': ref('steps.a.outputs.success'), 'other': ref('steps.a.outputs.alt'), 'bad': ref('steps.a.outputs.error')}),
         'ordis': lambda: ordisabled('steps.a.outputs.success'),
+        # the discriminator is named like a field the alternatives' own data has: the field then carries the alternative's id
+        'oneof-clash': lambda: oneof('tok', {'ok': ref('steps.a.outputs.success'), 'other': ref('steps.a.outputs.alt')}),
         # optional references to a whole stage (all of its outputs): the stage either happens or is declared impossible
         'wait-stage-disabled': lambda: opt('steps.a.disabled', True),
         'wait-stage-outputs': lambda: opt('steps.a.outputs', True),
@@ -68,8 +70,9 @@ def tag_shapes(rng, quick):
         rng.shuffle(combos)
         deep = [c for c in combos[40:] if c[1].startswith('deep') and c[0] in ('wait1', 'soft1', 'wait2') and c[2] in (('success', 'error'), ('error', 'success'))]
         dotted = [c for c in combos[40:] if c[0] == 'oneof-dotted' and c[1] in ('top', 'map')]
+        dotted += [c for c in combos[40:] if c[0] == 'oneof-clash' and c[1] in ('top', 'map') and c[2][0] in ('success', 'alt')][:3]
         stagey = [c for c in combos[40:] if c[0].startswith('wait-stage') and c[1] == 'top' and c[2][1] == 'success'][:9]
-        combos = combos[:40] + [c for c in combos[40:] if c[0] == 'oneof-with-soft' and c[2] == ('success', 'success')][:2] + deep[:6] + dotted[:4] + stagey
+        combos = combos[:40] + [c for c in combos[40:] if c[0] == 'oneof-with-soft' and c[2] == ('success', 'success')][:2] + deep[:6] + dotted[:7] + stagey
     for tg, pl, (oa, ob) in combos:
         def mk_oc(o):
             if o == 'disabled':
